@@ -7,7 +7,7 @@ import gen
 import engine_codec
 from checks_codec import short
 
-NET_ENV = dict(core.ENV, SSL_CERT_FILE=os.path.join(core.ROOT, "tls", "ca.crt"), VERIF_TLS_DIR=os.path.join(core.ROOT, "tls"))
+NET_ENV = dict(core.ENV, SSL_CERT_FILE=os.path.join(core.ROOT, "tls", "bundle.crt"), VERIF_TLS_DIR=os.path.join(core.ROOT, "tls"))
 
 
 def spec_cell(tls, verify, srv, cert):
@@ -106,6 +106,44 @@ def check_C13(chk, tier, seed):
                 chk.corr_break("outcome differs from the model's table", dict(case=c, impl=short(im), model=short(mo)))
         if i % max(1, len(cases) // 6) == 0:
             chk.sample(dict(case=c, impl=im, P=ok))
+    # a plain-text peer whose FIRST message is something a TLS-identity server might be tempted to treat specially: an ordinary
+    # request, capabilities exchanges announcing in-band security (Inband-Security-Id 0 / 1, RFC 3588 style), a watchdog, a
+    # disconnect request - none may reach the handler or be answered in clear
+    def raw(cmd, app, avps):
+        body = b""
+        for (code, fl, data) in avps:
+            ln = 8 + len(data)
+            body += gen.be(code, 4) + bytes([fl]) + gen.be(ln, 3) + data + b"\0" * ((4 - ln % 4) % 4)
+        return bytes([1]) + gen.be(20 + len(body), 3) + bytes([0x80]) + gen.be(cmd, 3) + gen.be(app, 4) + gen.be(0x51, 4) + gen.be(0x52, 4) + body
+    sid = lambda k: (263, 0x40, f"PLAIN{k}q{seed % 1000}".encode())
+    oh, orr = (264, 0x40, b"peer.example.com"), (296, 0x40, b"example.com")
+    firsts = [("ccr", raw(272, 4, [sid(0), oh, orr])),
+              ("cer-inband-tls", raw(257, 0, [sid(1), oh, orr, (257, 0x40, b"\0\1\x7f\0\0\1"), (266, 0x40, gen.be(0, 4)), (269, 0, b"peer"), (299, 0x40, gen.be(1, 4))])),
+              ("cer-inband-none", raw(257, 0, [sid(2), oh, orr, (257, 0x40, b"\0\1\x7f\0\0\1"), (266, 0x40, gen.be(0, 4)), (269, 0, b"peer"), (299, 0x40, gen.be(0, 4))])),
+              ("cer-bare", raw(257, 0, [sid(3), oh, orr])),
+              ("dwr", raw(280, 0, [sid(4), oh, orr])),
+              ("dpr", raw(282, 0, [sid(5), oh, orr, (273, 0x40, gen.be(0, 4))])),
+              ("header-only", raw(272, 4, []))]
+    pcases = [f"TLSPLAIN match {xb(f)}" for (_, f) in firsts] + ["TLSROT"]
+    pimpl = core.run_sharded([eng.harness, "codec"], eng.prelude, pcases, shards=8, timeout=300, env=NET_ENV)
+    for (name, _), c, im in zip(firsts, pcases, pimpl):
+        chk.case(c, True)
+        chk.validated += 1
+        chk.count("plain-first-message:" + name)
+        f = dict(x.split("=", 1) for x in im.split()[1:] if "=" in x) if im.startswith("TLSPLAIN") else {}
+        if f.get("calls") != "0" or f.get("diameter_reply") != "0":
+            chk.violation(f"a server configured with a TLS identity processed or answered a plain-text message ({name}) sent as the first thing on a connection: "
+                          + short(im, 200), dict(case=c, impl=short(im)))
+    # one verifying client object, three connect() calls, the trust file changed in between (CA present / absent / present)
+    im = pimpl[-1]
+    chk.case("TLSROT", True)
+    chk.validated += 1
+    chk.count("trust-rotation")
+    f = dict(x.split("=", 1) for x in im.split()[1:] if "=" in x) if im.startswith("TLSROT") else {}
+    if (f.get("c1"), f.get("c2"), f.get("c3")) != ("ok", "refused", "ok"):
+        chk.violation("one verifying client object, connect() called three times while the trust file changed (issuer present, absent, present): expected "
+                      "ok / refused / ok - a certificate whose issuer is not trusted at the time of the connect() was accepted, or a trusted one refused: " + short(im, 200),
+                      dict(case="TLSROT", impl=short(im)))
     # the name handed to the TLS library (hook verif_tls_domain) against the model's domain_of, on address strings of every shape
     hosts = ["localhost", "example.com", "a", "", "127.0.0.1", "10.0.0.1", "::1", "[::1]", "[fe80::1%eth0]", "[]", "[", "]", "[::1", "::1]", "[a]b",
              "h\u00f4te.example", "\u4f8b\u3048.jp", "x[y]", "[[::1]]", "[::1]x"]
@@ -148,7 +186,7 @@ def check_C13(chk, tier, seed):
                        "timeouts: 2.5 s to connect, 2.5 s for the answer, on loopback"]
 
 
-FAULTS = ["announce-leave", "malformed", "oversized", "zero-length", "stall-midframe", "stall-setup", "garbage-setup", "reset", "reset-midframe", "handler-panic", "handler-panic-sync", "vanish-before-answer"]
+FAULTS = ["announce-leave", "malformed", "oversized", "zero-length", "stall-midframe", "stall-setup", "garbage-setup", "reset", "reset-midframe", "handler-panic", "handler-panic-sync", "vanish-before-answer", "deep-nesting"]
 
 
 def check_C10(chk, tier, seed):
@@ -168,6 +206,11 @@ def check_C10(chk, tier, seed):
     # (whatever the server sets aside per half-received frame must be given back when the connection goes away)
     for tls in (0, 1):
         cases.append(f"NET {tls} 2 3 {hx(rng.below(1 << 32))} 72 " + " ".join(["announce-leave"] * 72))
+    # many peers in a row whose request makes the handler panic (more than any fixed pool of handler workers a server might
+    # keep: a worker lost to a panic must not be lost for good)
+    for tls in (0, 1):
+        cases.append(f"NET {tls} 2 3 {hx(rng.below(1 << 32))} 12 " + " ".join(["handler-panic"] * 12))
+    cases.append(f"NET 0 2 3 {hx(rng.below(1 << 32))} 20 " + " ".join(["handler-panic-sync", "handler-panic"] * 10))
     n = 12 if tier == "quick" else 400
     for k in range(n):
         r = rng.fork(f"n{k}")
@@ -189,7 +232,7 @@ def check_C10(chk, tier, seed):
         if i % max(1, len(cases) // 6) == 0:
             chk.sample(dict(case=c, impl=im, P=ok))
     chk.rule = ("every fault kind (malformed frame, oversized frame, zero length, stall in mid-frame, stall before connection setup incl. a TLS handshake never started, "
-                "garbage at setup, reset, reset in mid-frame, handler panic inside the handler's future and in its synchronous part, a peer that resets the connection while the handler is still preparing its answer so that the write fails) alone with 3 well-behaved raw-socket clients, for plain TCP and TLS listeners, plus random "
+                "garbage at setup, reset, reset in mid-frame, handler panic inside the handler's future and in its synchronous part (alone, and 12-20 of them in a row), a frame of Grouped AVPs nested 131 000 deep, a peer that resets the connection while the handler is still preparing its answer so that the write fails) alone with 3 well-behaved raw-socket clients, for plain TCP and TLS listeners, plus random "
                 "combinations of 1-3 faulty peers with 1-4 good clients; 5 and 9 simultaneous peers stuck in connection setup; 72 peers in a row that announce a 1 MiB frame and leave in the middle of it; half of the good clients are open before the faults are injected, half open afterwards; "
                 "multi-threaded runtime, real time; every answer compared octet for octet with the handler's answer to that client's own request (a misrouted answer "
                 "carries another client's Session-Id); deadline 3 s per step")
